@@ -54,6 +54,18 @@ CHECKS = {
         "Needs the verif_hooks feature (re-export of crate-private canonisation functions). Inputs restricted to sub-formulae of preprocessed formulae (documented precondition).",
         "DESIGN.md section 6, C09",
     ),
+    "C04": (
+        "model-based property testing over histories (proptest): batch evaluation vs a stateless reference (formula alone; eval_node with sharing disabled; explicit-state evaluator)",
+        "No counterexample among generated batches of overlapping formulae: every position of the batch result equals the single-formula result, the sharing-disabled result and the explicit semantics; reordering/repetition permutes results; runs with/without observer and repeated runs agree. Exploration over bounded histories (<=6 formulae).",
+        "Trusted base of C01/C02; sharing disabled via public EvalContext fields; hash-order effects only sampled (3 runs per history).",
+        "DESIGN.md section 6, C04",
+    ),
+    "C14": (
+        "property-based testing (proptest): crash oracle + independent error predicate over the reference parse",
+        "No counterexample among generated (network, strings, context subset, k) inputs: none of 9 string entry points panics, and Ok/Err matches the independent predicate (syntax by the reference parser; free / re-quantified variable, unknown proposition, missing label, k < depth). Exploration; 'never panics' is searched, not shown.",
+        "Context sets valid for the graph; nesting bounded by the generator; reference parser and scope checker of the harness are the specification.",
+        "DESIGN.md section 6, C14",
+    ),
 }
 
 PENDING_REASON = "check not built yet in this session (work in progress; see DESIGN.md section 10)"
